@@ -1,12 +1,214 @@
 import GrinVerif.Drv.Common
-/-! Driver glue for the `keys` domain (line protocol handler). -/
+import GrinVerif.Model.Keys
+/-! Driver glue for the `keys` domain (property C20): recomputes every observation printed by
+`harness/src/bin/keys.rs` with the model `GrinVerif/Model/Keys.lean`.
+
+`cmpSpec` (→ FAIL, a concrete failing input) is used where the property itself fixes the value:
+modular arithmetic of blinding factors, path/identifier round trips, message round trips, rewind
+results, builder validity. `cmpModel` (→ DIFF) for internal observables. -/
 namespace GV.Drv.KeysD
-open GV GV.Drv
+open GV GV.Drv GV.Keys
 
 structure St where
   dummy : Unit := ()
 
-def handle (st : St) (_args : List String) (_impl : String) : St × Verdict :=
-  (st, .unknown)
+/-- 32-byte (any length) big-endian hex → Nat -/
+def scalar? (s : String) : Option Nat := (parseHex s).map ofBE
+
+def ident? (s : String) : Option Ident := parseHex s
+
+def scalars? (s : String) : Option (List Nat) := (parseHexList s).map (·.map ofBE)
+
+def showPath (p : Path) : String :=
+  let flags := String.ofList (p.comps.map fun c => if c.isHardened then 'h' else 'n')
+  s!"{p.depth} {showNatList (p.comps.map ChildNumber.toU32)} {flags}"
+
+def showOptId : Option Ident → String
+  | some id => toHex id
+  | none => "panic"
+
+/-- `keychain.commit` under the free derivation (see `freeKD`) -/
+def fcommit : Nat → Ident → Switch → Res Opening := commit freeKD
+
+def sameCommit (amount : Nat) (id : Ident) (sw : Switch) (id' : Ident) (sw' : Switch) : Bool :=
+  match fcommit amount id sw, fcommit amount id' sw' with
+  | .ok a, .ok b => a == b
+  | _, _ => false
+
+def parseStep (s : String) : Option Step :=
+  match s.splitOn ":" with
+  | ["i", v, k] => match v.toNat?, scalar? k with
+    | some v, some k => some (.input ⟨v, k⟩)
+    | _, _ => none
+  | ["o", v, k] => match v.toNat?, scalar? k with
+    | some v, some k => some (.output ⟨v, k⟩)
+    | _, _ => none
+  | ["x", b] => (scalar? b).map .withExcess
+  | _ => none
+
+def parseSteps (s : String) : Option (List Step) :=
+  let inner := (s.drop 1).dropEnd 1 |>.toString
+  if inner.isEmpty then some [] else (inner.splitOn ",").mapM parseStep
+
+def REWARD : Nat := 60000000000
+
+/-- the result `proof::rewind` must give for an output created by the same builder, under the
+    crypto contracts (`Crypto.rewind_same`): `check_output` applied to the embedded message -/
+def expectedRewind (kind : String) (id : Ident) (sw : Switch) (amount : Nat) : Option Check :=
+  match fcommit amount id sw with
+  | .ok c =>
+    match kind with
+    | "new" => some (checkOutput fcommit c amount (proofMessage id sw))
+    | "legacy" => some (legacyCheckOutput fcommit c amount (legacyProofMessage id sw))
+    | "view" => some (viewCheckOutput 0 (.normal 0) (fun id' sw' => sameCommit amount id sw id' sw')
+        amount (proofMessage id sw))
+    | _ => none
+  | _ => none
+
+def showRewind (c : Check) (amount : Nat) : String :=
+  match c with
+  | .some id sw => s!"some {toHex id} {sw.show} {amount}"
+  | c => c.show
+
+def handle (st : St) (args : List String) (impl : String) : St × Verdict :=
+  match args with
+  -- tags
+  | ["sw_from", n] => match nat? n with
+    | some n => (st, cmpSpec (match Switch.ofU8 n with | some s => s.show | none => "err") impl)
+    | none => (st, .unknown)
+  | ["sw_to", s] => match Switch.parse s with
+    | some s => (st, cmpSpec (toString s.toU8) impl)
+    | none => (st, .unknown)
+  | ["child", n] => match nat? n with
+    | some n =>
+      let c := ChildNumber.ofU32 n
+      let s := match c with
+        | .normal i => s!"n {i}"
+        | .hardened i => s!"h {i}"
+      (st, cmpSpec s!"{s} {c.toU32}" impl)
+    | none => (st, .unknown)
+  -- identifiers
+  | ["frompath", d, l] => match nat? d, parseNatList l with
+    | some d, some [a, b, c, e] => (st, cmpSpec (toHex (deriveKeyId d a b c e)) impl)
+    | _, _ => (st, .unknown)
+  | ["frombytes", h] => match ident? h with
+    | some b => (st, cmpSpec (toHex (Ident.fromBytes b)) impl)
+    | none => (st, .unknown)
+  | ["rootid"] => (st, cmpSpec (toHex (deriveKeyId 0 0 0 0 0)) impl)
+  | ["topath", h] => match ident? h with
+    | some id => (st, cmpSpec (showPath id.toPath) impl)
+    | none => (st, .unknown)
+  | ["idrt", h] => match ident? h with
+    -- the property's round trip: from_path (to_path id) = id
+    | some id => (st, cmpSpec (toHex id) impl)
+    | none => (st, .unknown)
+  | ["serpath", h] => match ident? h with
+    | some id => (st, cmpSpec (toHex id.serializePath) impl)
+    | none => (st, .unknown)
+  | ["parent", h] => match ident? h with
+    | some id => (st, cmpModel (showOptId id.parentPath) impl)
+    | none => (st, .unknown)
+  | ["lastidx", h] => match ident? h with
+    | some id => (st, cmpModel (match id.toPath.lastPathIndex with | some n => toString n | none => "panic") impl)
+    | none => (st, .unknown)
+  | ["bip32", h] => match ident? h with
+    | some id => (st, cmpModel (match id.bip32 with
+        | some l => "m" ++ String.join (l.map fun i => s!"/{i}")
+        | none => "panic") impl)
+    | none => (st, .unknown)
+  | ["fromser", len, h] => match nat? len, ident? h with
+    | some len, some p => (st, cmpModel (showOptId (Ident.fromSerializedPath len p)) impl)
+    | _, _ => (st, .unknown)
+  -- proof messages
+  | ["msg", kind, h, sw] => match ident? h, Switch.parse sw with
+    | some id, some sw =>
+      if kind = "new" then (st, cmpSpec (toHex (proofMessage id sw)) impl)
+      else if kind = "legacy" then (st, cmpSpec (toHex (legacyProofMessage id sw)) impl)
+      else (st, .unknown)
+    | _, _ => (st, .unknown)
+  | ["check", kind, m, h, sw, amount] => match parseHex m, ident? h, Switch.parse sw, nat? amount with
+    | some msg, some id, some sw, some amount =>
+      match fcommit amount id sw with
+      | .ok c =>
+        if kind = "new" then (st, cmpModel (checkOutput fcommit c amount msg).show impl)
+        else if kind = "legacy" then (st, cmpModel (legacyCheckOutput fcommit c amount msg).show impl)
+        else (st, .unknown)
+      | _ => (st, .unknown)
+    | _, _, _, _ => (st, .unknown)
+  | ["vcheck", vd, vc, m, h, sw, amount] =>
+    match nat? vd, nat? vc, parseHex m, ident? h, Switch.parse sw, nat? amount with
+    | some vd, some vc, some msg, some id, some sw, some amount =>
+      (st, cmpModel (viewCheckOutput vd (.ofU32 vc)
+        (fun id' sw' => sameCommit amount id sw id' sw') amount msg).show impl)
+    | _, _, _, _, _, _ => (st, .unknown)
+  -- arithmetic
+  | ["bsum", p, n] => match scalars? p, scalars? n with
+    | some p, some n => (st, cmpSpec (secpBlindSum p n).show impl)
+    | _, _ => (st, .unknown)
+  | ["kbsum", pk, nk, pb, nb] => match scalars? pk, scalars? nk, scalars? pb, scalars? nb with
+    | some pk, some nk, some pb, some nb => (st, cmpSpec (kcBlindSum pk nk pb nb).show impl)
+    | _, _, _, _ => (st, .unknown)
+  | ["bfadd", a, b] => match scalar? a, scalar? b with
+    | some a, some b => (st, cmpSpec (bfAdd a b).show impl)
+    | _, _ => (st, .unknown)
+  | ["bfsplit", a, b] => match scalar? a, scalar? b with
+    | some a, some b => (st, cmpSpec (bfSplit a b).show impl)
+    | _, _ => (st, .unknown)
+  | ["koff", p, n] => match scalars? p, scalars? n with
+    | some p, some n => (st, cmpModel (sumKernelOffsets p n).show impl)
+    | _, _ => (st, .unknown)
+  -- crypto contracts (sampled)
+  | ["samekey", h, sw, h', sw'] => match ident? h, Switch.parse sw, ident? h', Switch.parse sw' with
+    | some id, some sw, some id', some sw' => (st, cmpSpec (showBool (sameCommit 5 id sw id' sw')) impl)
+    | _, _, _, _ => (st, .unknown)
+  | ["verify", _, _, _, _] => (st, cmpSpec "true" impl)
+  | ["rewind", "view", h, sw, amount] => match ident? h, Switch.parse sw, nat? amount with
+    | some id, some sw, some amount => match expectedRewind "view" id sw amount with
+      | some c => (st, cmpSpec (showRewind c amount) impl)
+      | none => (st, .unknown)
+    | _, _, _ => (st, .unknown)
+  | ["rewind", kind, h, sw, amount] => match ident? h, Switch.parse sw, nat? amount with
+    | some id, some sw, some amount => match expectedRewind kind id sw amount with
+      | some c => (st, cmpSpec (showRewind c amount) impl)
+      | none => (st, .unknown)
+    | _, _, _ => (st, .unknown)
+  | "rewind_other" :: _ => (st, cmpSpec "none" impl)
+  | ["derive_depth", h] => match ident? h with
+    | some id => (st, cmpModel (match fcommit 5 id .regular with
+        | .ok _ => "ok" | .err => "err" | .panic => "panic") impl)
+    | none => (st, .unknown)
+  -- builder
+  | ["build", fee, ex, steps] => match nat? fee, scalar? ex, parseSteps steps with
+    | some fee, some ex, some steps =>
+      match transactionWithKernel steps fee ex with
+      | some tx => (st, cmpSpec
+          s!"{toHex (beBytes 32 tx.offset)} {tx.ins.length} {tx.outs.length} {(txValidate tx).show}" impl)
+      | none => (st, cmpSpec "err" impl)
+    | _, _, _ => (st, .unknown)
+  | ["buildv", fee, steps] => match nat? fee, parseSteps steps with
+    | some fee, some steps =>
+      -- the excess is drawn inside `build::transaction`; the verdict does not depend on it:
+      -- excess + offset = blind sum whatever the excess
+      let (ins, outs, bs) := partialTransaction [] [] steps
+      match bs with
+      | .ok bs =>
+        let tx : Tx := ⟨ins, outs, fee, 0, bs⟩
+        (st, cmpSpec s!"{ins.length} {outs.length} {(txValidate tx).show}" impl)
+      | _ => (st, cmpSpec "err" impl)
+    | _, _ => (st, .unknown)
+  | ["partial", steps] => match parseSteps steps with
+    | some steps =>
+      let (ins, outs, bs) := partialTransaction [] [] steps
+      match bs with
+      | .ok bs => (st, cmpSpec s!"{toHex (beBytes 32 bs)} {ins.length} {outs.length}" impl)
+      | _ => (st, cmpSpec "err" impl)
+    | none => (st, .unknown)
+  | ["coinbase", fees] => match nat? fees with
+    | some fees =>
+      let (o, e) := rewardOutput REWARD fees 7
+      let okc := verifyCoinbase REWARD fees o e
+      (st, cmpSpec s!"{o.value} true true {showBool okc} {if fees = 0 then "block-ok" else "block-skip"}" impl)
+    | none => (st, .unknown)
+  | _ => (st, .unknown)
 
 end GV.Drv.KeysD
